@@ -243,32 +243,36 @@ theorem loop_condition_runs_once_more (fns : List FnDef) (c : Expr) (b : Block) 
   binders assigned from the examinee's fields before the guard, shared arm
   blocks, the default chain only when some variant has no case of its own).
   Enum constructors `E.V(args…)`: every argument lowered and materialised
-  before the next, then the fields stored.
-  Missing from the model (and so from the theorem): script-function calls,
-  `for`, lists, f-strings; a `match` whose patterns
+  before the next, then the fields stored. Script-function calls: arguments as
+  for host calls, then the callee's structured MIR runs from a store holding
+  its parameters (recursion allowed).
+  Missing from the model (and so from the theorem): `for`, lists, f-strings; a `match` whose patterns
   name a variant the examinee's type does not have; `drop` instructions and the `stack_slots` bookkeeping; the
   passage from structured MIR to the block/label CFG. -/
 
 open RotoV.LowerS in
 /-- Expression level: running the code emitted for `e` and then evaluating the
     (lazy) value it returned makes the calls of the specification and yields
-    its value; the store still agrees with the environment. -/
-theorem lowerE_trace_partial (fns : List FnDef) (n : Nat) (e : Expr) (env env' : Env) (c c' : Nat)
-    (code : Code) (value : Value) (σ : Store) (t : Trace) (v : Val)
+    its value; the store still agrees with the environment. `P` is the lowered
+    program (script-function calls run the callee's structured MIR). -/
+theorem lowerE_trace_partial (fns : List FnDef) (P : Prog) (hP : lowerProg fns = some P) (n : Nat) (e : Expr)
+    (env env' : Env) (c c' : Nat) (code : Code) (value : Value) (σ : Store) (t : Trace) (v : Val)
     (hl : lowerE e c = some (code, value, c')) (ha : Agree env σ)
     (h : evalExpr fns n env e = ⟨t, .ok (env', v)⟩) :
-    ∃ σ1 t1 t2, ExecC σ code t1 (.normal σ1) ∧ evalValue σ1 value = some (t2, v) ∧ t = t1 ++ t2
+    ∃ σ1 t1 t2, ExecC P σ code t1 (.normal σ1) ∧ EvalV P σ1 value t2 v ∧ t = t1 ++ t2
       ∧ Agree env' σ1 := by
-  obtain ⟨σ1, t1, t2, h1, h2, h3, h4, _⟩ := ((sim_all fns n).1 e env c code value c' σ hl ha).1 t env' v h
+  obtain ⟨σ1, t1, t2, h1, h2, h3, h4, _⟩ :=
+    ((sim_all fns P (lowerProg_ok fns P hP) n).1 e env c code value c' σ hl ha).1 t env' v h
   exact ⟨σ1, t1, t2, h1, h2, h3, h4⟩
 
 open RotoV.LowerS in
-/-- … and when `e` leaves the function (`return`), so does its code, after the same calls. -/
-theorem lowerE_return_partial (fns : List FnDef) (n : Nat) (e : Expr) (env : Env) (c c' : Nat)
-    (code : Code) (value : Value) (σ : Store) (t : Trace) (v : Val)
+/-- … and when `e` leaves the function (`return`, `accept`/`reject`, `?` on `None`), so does
+    its code, after the same calls. -/
+theorem lowerE_return_partial (fns : List FnDef) (P : Prog) (hP : lowerProg fns = some P) (n : Nat) (e : Expr)
+    (env : Env) (c c' : Nat) (code : Code) (value : Value) (σ : Store) (t : Trace) (v : Val)
     (hl : lowerE e c = some (code, value, c')) (ha : Agree env σ)
-    (h : evalExpr fns n env e = ⟨t, .ret v⟩) : ExecC σ code t (.returned v) :=
-  ((sim_all fns n).1 e env c code value c' σ hl ha).2 t v h
+    (h : evalExpr fns n env e = ⟨t, .ret v⟩) : ExecC P σ code t (.returned v) :=
+  ((sim_all fns P (lowerProg_ok fns P hP) n).1 e env c code value c' σ hl ha).2 t v h
 
 /-- What a function body hands back: its value, or the operand of the `return` that ended it. -/
 def bodyValue : Out (Env × Val) → Option Val
@@ -277,21 +281,23 @@ def bodyValue : Out (Env × Val) → Option Val
   | _ => none
 
 open RotoV.LowerS in
-/-- **T2 `lowerS_trace_partial`.** For every function in the modelled fragment,
-    every environment / store pair that agree, every fuel: if the
-    specification runs the body to a value `v` (at its end or through a
-    `return`) making the calls `t`, then the structured MIR of the function
-    returns `v` after making exactly the calls `t` — and, the structured MIR
-    being deterministic, that is its only behaviour. -/
-theorem lowerS_trace_partial (fns : List FnDef) (fd : FnDef) (code : Code) (n : Nat) (env : Env)
-    (σ : Store) (v : Val) (hl : lowerFn fd = some code) (ha : Agree env σ)
+/-- **T2 `lowerS_trace_partial`.** For every program all of whose functions are
+    in the modelled fragment (`lowerProg fns = some P`), every function `fd`
+    of the fragment, every environment / store pair that agree, every fuel: if
+    the specification runs the body to a value `v` (at its end or through
+    `return` / `accept` / `reject` / `?`) making the calls `t` — the calls of
+    the script functions it calls included — then the structured MIR of the
+    function returns `v` after making exactly the calls `t`; and, the
+    structured MIR being deterministic, that is its only behaviour. -/
+theorem lowerS_trace_partial (fns : List FnDef) (P : Prog) (hP : lowerProg fns = some P) (fd : FnDef)
+    (code : Code) (n : Nat) (env : Env) (σ : Store) (v : Val) (hl : lowerFn fd = some code) (ha : Agree env σ)
     (h : bodyValue (evalBlock fns n env fd.body).out = some v) :
-    ExecC σ code (evalBlock fns n env fd.body).tr (.returned v) ∧
-    ∀ t' o', ExecC σ code t' o' → t' = (evalBlock fns n env fd.body).tr ∧ o' = .returned v := by
-  have main : ExecC σ code (evalBlock fns n env fd.body).tr (.returned v) := by
+    ExecC P σ code (evalBlock fns n env fd.body).tr (.returned v) ∧
+    ∀ t' o', ExecC P σ code t' o' → t' = (evalBlock fns n env fd.body).tr ∧ o' = .returned v := by
+  have main : ExecC P σ code (evalBlock fns n env fd.body).tr (.returned v) := by
     simp [lowerFn, Option.bind_eq_some_iff] at hl
     obtain ⟨cb, xb, ⟨c', hb⟩, rfl⟩ := hl
-    have hB := (sim_all fns n).2.2.2.1 fd.body env 0 cb xb c' σ hb ha
+    have hB := (sim_all fns P (lowerProg_ok fns P hP) n).2.2.2.1 fd.body env 0 cb xb c' σ hb ha
     cases hr : evalBlock fns n env fd.body with
     | mk t o =>
       rw [hr] at h
@@ -300,7 +306,7 @@ theorem lowerS_trace_partial (fns : List FnDef) (fd : FnDef) (code : Code) (n : 
         obtain ⟨env', w⟩ := p
         simp [bodyValue] at h; subst h
         obtain ⟨σ1, hx, hv, _, _⟩ := hB.1 t env' w hr
-        have hret : ExecC σ1 [.ret xb] [] (.returned (σ1 xb)) := ExecC.single .ret
+        have hret : ExecC P σ1 [.ret xb] [] (.returned (σ1 xb)) := ExecC.single .ret
         rw [hv] at hret
         simpa using ExecC.append hx hret
       | ret w =>
@@ -342,6 +348,7 @@ open RotoV.LowerS
 
 /-- `emit(k, v)` / `emit_b(k, v)` as terms -/
 def emitI (k v : Int) : Expr := .host 0 (.cons (.lit (.int k)) (.cons (.lit (.int v)) .nil))
+def emitVar (k : Int) (x : Nat) : Expr := .host 0 (.cons (.lit (.int k)) (.cons (.var x) .nil))
 def emitB (k : Int) (v : Bool) : Expr := .host 1 (.cons (.lit (.int k)) (.cons (.lit (.bool v)) .nil))
 
 -- operands_left_to_right / arguments_left_to_right / call_after_arguments
@@ -438,6 +445,13 @@ def demoFn5 : FnDef := ⟨[0], .last demoMatch⟩
 example : (lowerFn demoFn5).isSome = true := by decide
 example : bodyValue (evalBlock [] 40 [(0, .int 4)] demoFn5.body).out = some (.int 0) := by decide
 example : ((evalBlock [] 40 [(0, .int 4)] demoFn5.body).tr).length = 4 := by decide
+-- … a script-function call: `fn f0(x0) { emit(1, x0) }  fn main(x1) { f0(emit(2, x1)) + f0(7) }`
+def demoProg : List FnDef :=
+  [⟨[0], .last (emitVar 1 0)⟩,
+   ⟨[1], .last (.bin .add (.call 0 (.cons (emitVar 2 1) .nil)) (.call 0 (.cons (.lit (.int 7)) .nil)))⟩]
+example : (lowerProg demoProg).isSome = true := by decide
+example : (evalBlock demoProg 40 [(1, .int 5)] (⟨[1], .last (.bin .add (.call 0 (.cons (emitVar 2 1) .nil)) (.call 0 (.cons (.lit (.int 7)) .nil)))⟩ : FnDef).body).tr
+    = [⟨0, [.int 2, .int 5]⟩, ⟨0, [.int 1, .int 5]⟩, ⟨0, [.int 1, .int 7]⟩] := by decide
 end nonvacuity
 
 end RotoV.C08
